@@ -108,6 +108,14 @@ def Frame.newWrapping (localCount : Nat) (args : List Arg) (captures : List Nat)
   { locals := initialLocals args captures,
     tb := asU8 (1 + localCount + asU8 captures.length + asU8 (placeholders args)) }
 
+/-- `compile_frame` (since fix 4f80b78): before calling `Frame::new` the compiler computes
+`1 + local_count + captures.len() + placeholders` in `usize` and reports
+`FunctionPropertyLimit("local registers")` when it exceeds `u8::MAX`; `none` = that compile error.
+`local_count` is a `u8` here (the main block's and a function's counts are converted with
+`u8::try_from`, a failure being `FunctionPropertyLimit("locals")`). -/
+def Frame.newGuarded (localCount : Nat) (args : List Arg) (captures : List Nat) : Option (Out Unit) :=
+  if baseSum localCount args captures > u8Max then none else some (Frame.new localCount args captures)
+
 /-- index of the first element satisfying `p` -/
 def findIdx (p : Local → Bool) : List Local → Nat → Option Nat
   | [], _ => none
